@@ -9,7 +9,11 @@
                 spaces and line feeds only
 
   provided the two modes take the same white-space decisions on text (`CfgRel`): both are not
-  canonical, or white space is kept. Trees without embedded documents (`noNested`).
+  canonical, or white space is kept. Embedded documents included: an embedded document is printed
+  by a duplicated encoder (same generation mode, same indent, the embedded language) and appended
+  as a C string — the cut at the first NUL happens in the same chunk of both renderings at the same
+  place (`cutChunks`, `cut_render`), because markup is identical, escaping maps NUL to NUL and
+  nothing else to NUL, and white space contains none.
 -/
 import Wbxml.Lemmas.XmlPrint
 import Wbxml.Lemmas.EncWCfg
@@ -235,27 +239,185 @@ theorem xmlEndTag_shape (c : XCfg) (name : Name) (kids : List Node) (st : XSt) :
     · simp [h1]
     · simp [h1]
 
+/-! ### The C-string cut of an embedded rendering, chunk by chunk -/
+
+def noNul (s : Bytes) : Bool := s.all (· != 0)
+
+theorem cstrOf_nil : cstrOf [] = [] := rfl
+
+theorem cstrOf_cons (b : UInt8) (r : Bytes) : cstrOf (b :: r) = if b == 0 then [] else b :: cstrOf r := by
+  unfold cstrOf
+  simp only [cstrLen]
+  split <;> rfl
+
+theorem cstrOf_append (x y : Bytes) : cstrOf (x ++ y) = if noNul x then x ++ cstrOf y else cstrOf x := by
+  induction x with
+  | nil => rfl
+  | cons b r ih =>
+    have hc : noNul (b :: r) = ((b != 0) && noNul r) := rfl
+    rw [List.cons_append, cstrOf_cons, cstrOf_cons, ih, hc]
+    cases hb : (b == 0) <;> cases hr : noNul r <;> simp [bne, hb]
+
+theorem noNul_append (x y : Bytes) : noNul (x ++ y) = (noNul x && noNul y) := by
+  simp [noNul]
+
+/-- The escaped form of one octet: NUL-free unless the octet is NUL, which is left alone. -/
+def esc1 (canonical : Bool) (ch : UInt8) : Bytes :=
+  if ch == 60 then b!"&lt;"
+  else if ch == 62 then b!"&gt;"
+  else if ch == 38 then b!"&amp;"
+  else if ch == 34 then b!"&quot;"
+  else if ch == 39 then b!"&apos;"
+  else if ch == 13 then b!"&#13;"
+  else if ch == 10 && canonical then b!"&#10;"
+  else if ch == 9 && canonical then b!"&#9;"
+  else [ch]
+
+theorem xmlEscape_cons (c : Bool) (ch : UInt8) (r : Bytes) : xmlEscape c (ch :: r) = esc1 c ch ++ xmlEscape c r := rfl
+
+theorem esc1_noNul (c : Bool) (ch : UInt8) : noNul (esc1 c ch) = (ch != 0) := by
+  unfold esc1
+  split
+  · rename_i h; have e : ch = 60 := by simpa using h
+    subst e; rfl
+  split
+  · rename_i h; have e : ch = 62 := by simpa using h
+    subst e; rfl
+  split
+  · rename_i h; have e : ch = 38 := by simpa using h
+    subst e; rfl
+  split
+  · rename_i h; have e : ch = 34 := by simpa using h
+    subst e; rfl
+  split
+  · rename_i h; have e : ch = 39 := by simpa using h
+    subst e; rfl
+  split
+  · rename_i h; have e : ch = 13 := by simpa using h
+    subst e; rfl
+  split
+  · rename_i h; simp only [Bool.and_eq_true, beq_iff_eq] at h; obtain ⟨e, _⟩ := h; subst e; rfl
+  split
+  · rename_i h; simp only [Bool.and_eq_true, beq_iff_eq] at h; obtain ⟨e, _⟩ := h; subst e; rfl
+  · simp [noNul]
+
+theorem esc1_zero (c : Bool) : esc1 c 0 = [0] := by
+  cases c <;> rfl
+
+theorem noNul_escape (c : Bool) (s : Bytes) : noNul (xmlEscape c s) = noNul s := by
+  induction s with
+  | nil => rfl
+  | cons ch r ih =>
+    rw [xmlEscape_cons, noNul_append, ih, esc1_noNul]
+    simp [noNul]
+
+/-- Escaping commutes with the C-string cut. -/
+theorem cstrOf_escape (c : Bool) (s : Bytes) : cstrOf (xmlEscape c s) = xmlEscape c (cstrOf s) := by
+  induction s with
+  | nil => rfl
+  | cons ch r ih =>
+    rw [xmlEscape_cons, cstrOf_append, esc1_noNul, cstrOf_cons]
+    by_cases hb : (ch == 0) = true
+    · have : ch = 0 := by simpa using hb
+      subst this
+      simp only [bne_self_eq_false, Bool.false_eq_true, ↓reduceIte, beq_self_eq_true, esc1_zero]
+      rfl
+    · have hb' : (ch == 0) = false := by simpa using hb
+      have hne : (ch != 0) = true := by simp [bne, hb']
+      simp only [hne, ↓reduceIte, hb', Bool.false_eq_true, ih, xmlEscape_cons]
+
+theorem blank_noNul (w : Bytes) (h : w.all isBlankB = true) : noNul w = true := by
+  simp only [noNul, List.all_eq_true] at h ⊢
+  intro x hx
+  have := h x hx
+  simp only [isBlankB, Bool.or_eq_true, beq_iff_eq] at this
+  rcases this with rfl | rfl <;> rfl
+
+/-- The chunk sequence of a rendering cut at its first NUL octet. -/
+def cutChunks : List XChunk → List XChunk
+  | [] => []
+  | .mk bs :: r => if noNul bs then .mk bs :: cutChunks r else [.mk (cstrOf bs)]
+  | .txt s :: r => if noNul s then .txt s :: cutChunks r else [.txt (cstrOf s)]
+  | .ws a b :: r => .ws a b :: cutChunks r
+
+theorem WsOk.tail {x : XChunk} {r : List XChunk} (h : WsOk (x :: r)) : WsOk r :=
+  fun a b hm => h a b (List.mem_cons_of_mem _ hm)
+
+/-- **The C-string cut of both renderings is the rendering of one cut chunk sequence.** -/
+theorem cut_render (ga gb : Nat) (ch : List XChunk) (h : WsOk ch) :
+    cstrOf (ch.flatMap (rA ga)) = (cutChunks ch).flatMap (rA ga) ∧
+    cstrOf (ch.flatMap (rB gb)) = (cutChunks ch).flatMap (rB gb) := by
+  induction ch with
+  | nil => exact ⟨rfl, rfl⟩
+  | cons x r ih =>
+    obtain ⟨iha, ihb⟩ := ih h.tail
+    cases x with
+    | mk bs =>
+      simp only [List.flatMap_cons, rA, rB, cstrOf_append, cutChunks]
+      cases hn : noNul bs with
+      | true => simp only [↓reduceIte, List.flatMap_cons, rA, rB, iha, ihb, and_self]
+      | false => simp [rA, rB]
+    | txt s =>
+      simp only [List.flatMap_cons, rA, rB, cstrOf_append, cutChunks, noNul_escape]
+      cases hn : noNul s with
+      | true => simp only [↓reduceIte, List.flatMap_cons, rA, rB, iha, ihb, and_self]
+      | false => simp [rA, rB, cstrOf_escape]
+    | ws a b =>
+      obtain ⟨ha, hb⟩ := h a b List.mem_cons_self
+      simp only [List.flatMap_cons, rA, rB, cstrOf_append, cutChunks, blank_noNul a ha, blank_noNul b hb, ↓reduceIte,
+        iha, ihb, and_self]
+
+theorem cut_ws (ch : List XChunk) (h : WsOk ch) : WsOk (cutChunks ch) := by
+  induction ch with
+  | nil => exact wsOk_nil
+  | cons x r ih =>
+    have ih' := ih h.tail
+    cases x with
+    | mk bs =>
+      simp only [cutChunks]
+      split
+      · intro a b hm
+        rcases List.mem_cons.mp hm with hm | hm
+        · cases hm
+        · exact ih' a b hm
+      · intro a b hm; simp at hm
+    | txt s =>
+      simp only [cutChunks]
+      split
+      · intro a b hm
+        rcases List.mem_cons.mp hm with hm | hm
+        · cases hm
+        · exact ih' a b hm
+      · intro a b hm; simp at hm
+    | ws a b =>
+      simp only [cutChunks]
+      intro a' b' hm
+      rcases List.mem_cons.mp hm with hm | hm
+      · injection hm with h1 h2; subst h1 h2; exact h a' b' List.mem_cons_self
+      · exact ih' a' b' hm
+
 /-! ### Nodes -/
 
 theorem simR_fuel (ga gb : Nat) : SimR ga gb (.error .fuel) (.error .fuel) := rfl
 
-theorem sim_nodes (ca cb : XCfg) (hrel : CfgRel ca cb) : ∀ f : Nat,
-    (∀ (parent : Parent) (n : Node) (sa sb : XSt) (ch : List XChunk), noNested n = true →
+theorem sim_nodes : ∀ (f : Nat) (ca cb : XCfg), CfgRel ca cb →
+    (∀ (parent : Parent) (n : Node) (sa sb : XSt) (ch : List XChunk),
       Sim ca.gen cb.gen ch sa sb → SimR ca.gen cb.gen (xmlNode ca parent f n sa) (xmlNode cb parent f n sb)) ∧
-    (∀ (parent : Parent) (l : List Node) (sa sb : XSt) (ch : List XChunk), noNestedL l = true →
+    (∀ (parent : Parent) (l : List Node) (sa sb : XSt) (ch : List XChunk),
       Sim ca.gen cb.gen ch sa sb → SimR ca.gen cb.gen (xmlNodes ca parent f l sa) (xmlNodes cb parent f l sb)) := by
   intro f
   induction f with
   | zero =>
-    exact ⟨fun _ _ _ _ _ _ _ => by simp only [xmlNode]; exact simR_fuel _ _,
-      fun _ _ _ _ _ _ _ => by simp only [xmlNodes]; exact simR_fuel _ _⟩
+    intro ca cb _
+    exact ⟨fun _ _ _ _ _ _ => by simp only [xmlNode]; exact simR_fuel _ _,
+      fun _ _ _ _ _ _ => by simp only [xmlNodes]; exact simR_fuel _ _⟩
   | succ f ih =>
-    obtain ⟨ihN, ihL⟩ := ih
+    intro ca cb hrel
+    obtain ⟨ihN, ihL⟩ := ih ca cb hrel
     constructor
-    · intro parent n sa sb ch hn h
+    · intro parent n sa sb ch h
       cases n with
       | elt name attrs kids =>
-        rw [noNested] at hn
         simp only [xmlNode]
         -- tag
         obtain ⟨wa, hwa, oa, ica, cda, cta⟩ := xmlTag_shape ca parent name sa
@@ -292,7 +454,7 @@ theorem sim_nodes (ca cb : XCfg) (hrel : CfgRel ca cb) : ∀ f : Nat,
             (by rw [oa3]; simp [rA]) (by rw [ob3]; simp [rB])
             (by rw [ica3, icb3, h2.ic]) (by rw [cda3, cdb3, h2.cd]) (by rw [cta3, ctb3, h2.ct])
         -- children, end tag
-        refine SimR.bind (ihL (childScope parent name) kids _ _ _ hn h3) ?_
+        refine SimR.bind (ihL (childScope parent name) kids _ _ _ h3) ?_
         intro sa4 sb4 ch4 h4
         cases hk : kids.isEmpty with
         | true =>
@@ -322,28 +484,45 @@ theorem sim_nodes (ca cb : XCfg) (hrel : CfgRel ca cb) : ∀ f : Nat,
         intro sa1 sb1 ch1 h1
         exact ⟨ch1, ⟨h1.outA, h1.outB, h1.ic, h1.cd, rfl, h1.ws⟩⟩
       | cdata kids =>
-        rw [noNested] at hn
         simp only [xmlNode]
         have h1 : Sim ca.gen cb.gen (ch ++ [.mk b!"<![CDATA["])
             { sa with inCdata := true, out := sa.out ++ b!"<![CDATA[" }
             { sb with inCdata := true, out := sb.out ++ b!"<![CDATA[" } :=
           h.step _ (by intro a b hm; simp at hm) _ _ (by simp [rA]) (by simp [rB]) h.ic rfl h.ct
-        refine SimR.bind (ihL parent kids _ _ _ hn h1) ?_
+        refine SimR.bind (ihL parent kids _ _ _ h1) ?_
         intro sa2 sb2 ch2 h2
         exact ⟨_, h2.step [.mk b!"]]>"] (by intro a b hm; simp at hm)
           { sa2 with inCdata := false, out := sa2.out ++ b!"]]>", curTag := none }
           { sb2 with inCdata := false, out := sb2.out ++ b!"]]>", curTag := none }
           (by simp [rA]) (by simp [rB]) h2.ic rfl rfl⟩
-      | tree l cs r => simp [noNested] at hn
-    · intro parent l sa sb ch hn h
+      | tree l cs r =>
+        cases l with
+        | none => simp only [xmlNode]; rfl
+        | some l =>
+          cases r with
+          | none => simp only [xmlNode]; rfl
+          | some r =>
+            simp only [xmlNode]
+            have hrel' : CfgRel { ca with lang := l } { cb with lang := l } := ⟨rfl, hrel.ie, hrel.rb, hrel.txt⟩
+            have h0 : Sim ca.gen cb.gen [] ({ indent := sa.indent } : XSt) ({ indent := sb.indent } : XSt) :=
+              ⟨rfl, rfl, rfl, rfl, rfl, wsOk_nil⟩
+            have hsub := (ih { ca with lang := l } { cb with lang := l } hrel').1 .none r _ _ [] h0
+            refine SimR.bind (ga := ca.gen) (gb := cb.gen) hsub ?_
+            intro sa' sb' ch' h'
+            obtain ⟨ea, eb⟩ := cut_render ca.gen cb.gen ch' h'.ws
+            exact ⟨_, h.step (cutChunks ch') (cut_ws ch' h'.ws)
+              { sa with out := sa.out ++ cstrOf sa'.out, curTag := none }
+              { sb with out := sb.out ++ cstrOf sb'.out, curTag := none }
+              (by show sa.out ++ cstrOf sa'.out = _; rw [h'.outA, ea])
+              (by show sb.out ++ cstrOf sb'.out = _; rw [h'.outB, eb]) h.ic h.cd rfl⟩
+    · intro parent l sa sb ch h
       cases l with
       | nil => simp only [xmlNodes]; exact ⟨ch, h⟩
       | cons n rest =>
-        rw [noNestedL, Bool.and_eq_true] at hn
         simp only [xmlNodes]
-        refine SimR.bind (ihN parent n sa sb ch hn.1 h) ?_
+        refine SimR.bind (ihN parent n sa sb ch h) ?_
         intro sa1 sb1 ch1 h1
-        exact ihL parent rest sa1 sb1 ch1 hn.2 h1
+        exact ihL parent rest sa1 sb1 ch1 h1
 
 /-! ### Whole documents -/
 
@@ -395,8 +574,7 @@ theorem treeToXml_eq (cfg : W2XCfg) (fuel : Nat) (t : Tree) :
     | some root => rfl
 
 theorem treeToXml_sim (cfgA cfgB : W2XCfg) (fuel : Nat) (t : Tree) (hk : cfgA.keepWs = cfgB.keepWs)
-    (hc : (cfgA.gen != 2) = (cfgB.gen != 2) ∨ cfgA.keepWs = true)
-    (hn : ∀ r, t.root = some r → noNested r = true) :
+    (hc : (cfgA.gen != 2) = (cfgB.gen != 2) ∨ cfgA.keepWs = true) :
     SimX cfgA.gen cfgB.gen (treeToXml cfgA fuel t) (treeToXml cfgB fuel t) := by
   rw [treeToXml_eq, treeToXml_eq]
   cases hl : t.lang with
@@ -414,7 +592,7 @@ theorem treeToXml_sim (cfgA cfgB : W2XCfg) (fuel : Nat) (t : Tree) (hk : cfgA.ke
       have h0 : Sim cfgA.gen cfgB.gen [] ({} : XSt) ({} : XSt) := ⟨rfl, rfl, rfl, rfl, rfl, wsOk_nil⟩
       have hs : SimR cfgA.gen cfgB.gen (xmlNode (xcfgOf cfgA lang) .none fuel root {})
           (xmlNode (xcfgOf cfgB lang) .none fuel root {}) :=
-        (sim_nodes _ _ hrel fuel).1 .none root {} {} [] (hn root hr) h0
+        (sim_nodes fuel _ _ hrel).1 .none root {} {} [] h0
       generalize xmlNode (xcfgOf cfgA lang) .none fuel root {} = ra at hs ⊢
       generalize xmlNode (xcfgOf cfgB lang) .none fuel root {} = rb at hs ⊢
       cases ra with
